@@ -248,7 +248,9 @@ func ParseRange(s string) (uint32, uint32) {
 }
 
 func RunList(infos []*resource.Info, exposure bool) (ToolResult, *connlist.ConnlistAnalyzer) {
-	opts := []connlist.ConnlistAnalyzerOption{connlist.WithLogger(quiet), connlist.WithMuteErrsAndWarns()}
+	// no WithMuteErrsAndWarns: the silent logger discards the messages; muting must be a matter of logging only, and diff
+	// (which mutes its internal analyses) is compared with list as a user runs it
+	opts := []connlist.ConnlistAnalyzerOption{connlist.WithLogger(quiet)}
 	if exposure {
 		opts = append(opts, connlist.WithExposureAnalysis())
 	}
